@@ -122,9 +122,13 @@ BalOutcome(T, roots) ==
       must |-> {<<BitsToStr(x.k), BitsToDec(x.v)>> : x \in {y \in all : y.exists}},
       may  |-> {<<BitsToStr(x.k), "0">> : x \in {y \in all : ~y.exists}},
       abs  |-> {<<BitsToStr(x.k), x.exists, IF x.exists THEN BitsToDec(x.v) ELSE "0">> : x \in all}]
-BalAccepts(o, items, extras, counts, avals, m) ==
+\* the driver's part: the recorded cells are account dictionaries (per ShardAccounts.tla) holding exactly the accounts derived
+\* from the map; a failure here is the harness's, not the library's (NOTE "balances-input")
+BalInputOK(o, m) ==
   /\ o.ok /\ o.n = o.tot                                                            \* no account id twice in the state
   /\ o.abs = {<<p[1], StrToBits(p[2])[32] = 1, IF StrToBits(p[2])[32] = 1 THEN BitsToDec(StrToBits(p[2])) ELSE "0">> : p \in m}
+BalAccepts(o, items, extras, counts, avals, m) ==
+  /\ IF BalInputOK(o, m) THEN TRUE ELSE PrintT(<<"NOTE", l, "balances-input">>) /\ FALSE     \* (IF, not \/: both sides of an action-level \/ are evaluated)
   /\ o.must \subseteq AsSet(items) /\ AsSet(items) \subseteq (o.must \cup o.may)
   /\ Cardinality({items[i][1] : i \in 1..Len(items)}) = Len(items)
   /\ extras = 0
